@@ -5,7 +5,7 @@ PROP = dict(
         "ntp_proto::packet::extension_fields::{ExtensionFieldData::{deserialize,serialize}, ExtensionField::{decode,serialize,encode_framing,encode_padding,write_zeros,encode_unique_identifier,encode_nts_cookie,encode_nts_cookie_placeholder,encode_unknown,encode_draft_identification}}",
         "ntp_proto::packet::v5::extension_fields::{ReferenceIdRequest::{decode,serialize}, ReferenceIdResponse::{decode,serialize}}, NtpHeaderV5::{deserialize,serialize}",
     ],
-    bounds="inputs of C23 without keys that can be accepted: v3/v4 header alone (every mode and leap value, other 47 bytes symbolic); v3/v4 header + every MAC length 0..=28; templates (first header byte and v5 timescale/flags concrete, everything else symbolic) with 1-3 fields of concrete type/length: v4 fields 16/20/28/32 (+MAC), v5 fields 4..8,15,16,17,20 before/after the draft field, second draft field with symbolic ASCII content, v5 header fully symbolic with the draft field only. Oracle: encode Ok; encoding == normal form of the input computed from the wire format (padding zeroed, unused request tail zeroed, v5 leap bits); decode(encoding) == packet; second encoding identical (byte-wise claims at an arbitrary index)",
+    bounds="inputs of C23 without keys that can be accepted: v3/v4 header alone (every mode and leap value, other 47 bytes symbolic); v3/v4 header + MAC of 4, 5, 20, 24 bytes; templates (first header byte and v5 timescale/flags concrete, everything else symbolic) with 1-3 fields of concrete type/length: v4 fields 16/20/28/32 (+MAC), v5 fields 4..8,15,16,17,20 before/after the draft field, second draft field with symbolic ASCII content, v5 header fully symbolic with the draft field only. Oracle: encode Ok; encoding == normal form of the input computed from the wire format (padding zeroed, unused request tail zeroed, v5 leap bits); decode(encoding) == packet; second encoding identical (byte-wise claims at an arbitrary index)",
     outside="packets with NTS fields (not accepted without keys); inputs beyond the C23 templates; serialize's desired_size padding (None here)",
     assumptions=[
         "c24_rt_v5_b: reference-id request with payload length not a multiple of 4 excluded (candidate finding, harness c24_rt_v5_kf_refid_req_unaligned)",
@@ -19,8 +19,8 @@ PROP = dict(
         H(NP, "c24", "c24_rt_hdr_q", "v3 client header, v4 server header: identity", timeout=600),
         H(NP, "c24", "c24_rt_hdr_v3", "v3 header, all modes/leap values: identity", tier="thorough"),
         H(NP, "c24", "c24_rt_hdr_v4", "v4 header, all modes/leap values: identity", tier="thorough"),
-        H(NP, "c24", "c24_rt_mac_v3", "v3 header + MAC of every length 0..=28: identity", bounds="len 48..=76", timeout=600),
-        H(NP, "c24", "c24_rt_mac_v4", "v4 header + MAC of every length 0..=24: identity", bounds="len 48..=72", timeout=600),
+        H(NP, "c24", "c24_rt_mac_v3", "v3 header + MAC of 4/5/20/24 bytes: identity", tier="thorough"),
+        H(NP, "c24", "c24_rt_mac_v4", "v4 header + MAC of 4/5/20/24 bytes: identity", tier="thorough"),
         H(NP, "c24", "c24_rt_v5_draft", "v5 second draft field with symbolic ASCII content", tier="thorough"),
         H(NP, "c24", "c24_rt_v4_one", "v4 one field (unique id / cookie + 24-byte MAC / draft type + 4-byte MAC)", tier="thorough"),
         H(NP, "c24", "c24_rt_v4_placeholder", "v4 cookie placeholder", tier="thorough"),
